@@ -487,7 +487,9 @@ impl Render {
         let plain = |w: &String| !w.is_empty() && w.chars().all(|c| c.is_ascii_alphanumeric() || "+-:/_".contains(c));
         let mut renamed: Vec<String>;
         let mut words = words;
+        let mut aliased = false;
         if self.alias_ok && words.iter().all(plain) && self.arng.chance(1, 6) {
+            aliased = true;
             let k = self.aliases.len();
             match self.arng.below(4) {
                 0 => {
@@ -523,14 +525,52 @@ impl Render {
                 }
             }
         }
+        // the command name written with quotes or a line continuation inside it (never for assignments
+        // and declaration utilities, whose recognition depends on the literal word)
+        let nameable = self.alias_ok
+            && !aliased
+            && plain(&words[0])
+            && !words[0].contains('=')
+            && !["typeset", "readonly", "export", "command", "alias"].contains(&words[0].as_str());
+        let disguise = if nameable && self.arng.chance(1, 10) { 1 + self.arng.below(5) } else { 0 };
         for (i, w) in words.iter().enumerate() {
             if i > 0 {
                 self.sp();
             }
+            if i == 0 && disguise > 0 {
+                let cut = if w.chars().count() > 1 { 1 + self.arng.below(w.chars().count() - 1) } else { 0 };
+                let (a, b): (String, String) = (w.chars().take(cut).collect(), w.chars().skip(cut).collect());
+                match disguise {
+                    1 => write!(self.out, "\"{w}\"").unwrap(),
+                    2 => write!(self.out, "'{w}'").unwrap(),
+                    3 => write!(self.out, "{a}\"\"{b}").unwrap(),
+                    4 if cut > 0 => write!(self.out, "{a}\\\n{b}").unwrap(),
+                    _ => write!(self.out, "{a}'{b}'").unwrap(),
+                }
+                continue;
+            }
             self.word(w);
         }
+        if self.alias_ok && self.arng.chance(1, 14) {
+            self.harmless_redirection();
+        }
+    }
+    /// a redirection that succeeds and changes nothing the run observes
+    fn harmless_redirection(&mut self) {
+        let r = *self.arng.pick(&[" </dev/null", " 3</dev/null", " <\"/dev/null\"", " 3<&0", "\t4< /dev/null", " </dev/null 3<&0"]);
+        self.out.push_str(r);
     }
     fn cmd(&mut self, c: &Cmd) {
+        self.cmd_inner(c);
+        // redirections on compound commands
+        if self.alias_ok
+            && matches!(c, Cmd::Group(_) | Cmd::Subshell(_) | Cmd::If(..) | Cmd::While(..) | Cmd::For(..) | Cmd::ForPos(_) | Cmd::Case(_))
+            && self.arng.chance(1, 10)
+        {
+            self.harmless_redirection();
+        }
+    }
+    fn cmd_inner(&mut self, c: &Cmd) {
         match c {
             Cmd::Probe(m) => self.simple(&["probe".into(), m.to_string()]),
             Cmd::St(n) => self.simple(&["st".into(), n.to_string()]),
